@@ -591,7 +591,8 @@ def run(ck: Check):
     layout_byte_diffs = {}
     if model_ok:
         results = ck.coq_eval_sharded("c11_codec", IMPORTS, [case_file(sh) for sh in shards], timeout=900)
-        for sh, (okc, outc) in zip(shards, results):
+        for shd, (okc, outc) in zip(shards, results):
+            sh_cases = shd
             if not okc:
                 corr_ok = False
                 corr_detail = corr_detail or ("coq evaluation failed: " + outc[-400:])
@@ -602,11 +603,11 @@ def run(ck: Check):
                 corr_ok = False
                 corr_detail = corr_detail or f"cannot parse coq output: {e}"
                 continue
-            if len(parsed) != len(sh):
+            if len(parsed) != len(sh_cases):
                 corr_ok = False
-                corr_detail = corr_detail or f"coq printed {len(parsed)} results for {len(sh)} cases"
+                corr_detail = corr_detail or f"coq printed {len(parsed)} results for {len(sh_cases)} cases"
                 continue
-            for (case, r), (m_wt, m_wtu, m_enc_eq, m_dec_ok, m_spec) in zip(sh, parsed):
+            for (case, r), (m_wt, m_wtu, m_enc_eq, m_dec_ok, m_spec) in zip(sh_cases, parsed):
                 name, tr, v = case
                 n_model += 1
                 in_domain = case not in domain_cases
